@@ -94,6 +94,25 @@ def run(ctx, rep):
                 v = [vv for vv, x in RP.term(sw)["targets"] if x == succ]
                 okr = bool(v) and v[0] == "1"
     rep.check("C01.d", "decode-iff-length", len(dec) == 1 and okr, where=RP.loc(), what="read_encrypted_from_partial decompresses exactly when an uncompressed length is recorded")
+    # the other direction as a must-pass rule: once a length is recorded (Some edge), no successful return avoids decode_all
+    oka = False
+    if len(dec) == 1:
+        okret = [bi for bi, blk in enumerate(RP.blocks) for s_ in blk["s"] if s_[0] == "=" and s_[1] == [0] and s_[2][0] == "agg" and s_[2][1][0] == "adt" and s_[2][1][2] == "Ok"]
+        for sw in range(len(RP.blocks)):
+            tt = RP.term(sw)
+            if tt["k"] != "switch":
+                continue
+            e = flow.expr_of(RP, tt["discr"], sw)
+            if e[0] == "path" and e[1][0] == "local" and not e[2]:
+                for s_ in RP.blocks[sw]["s"]:
+                    if s_[0] == "=" and s_[1] == [e[1][1]] and s_[2][0] == "discr":
+                        e = ("discr", flow.place_expr(RP, s_[2][1]))
+            if e[0] == "discr" and e[1][0] == "path" and e[1][1] == ("arg", 3):
+                some = [x for v, x in tt["targets"] if v == "1"] or [tt["otherwise"]]
+                reach = RP.reachable_from(some[0], cut_blocks=[dec[0]])
+                oka = bool(okret) and not any(r in reach for r in okret)
+    rep.check("C01.d", "length-recorded-implies-decode", oka, where=RP.loc(), what="whenever an uncompressed length is recorded, the data is decompressed before it is returned (no successful return avoids decode_all)" if oka else
+              "data with a recorded uncompressed length can be returned WITHOUT being decompressed on some path")
     # ---- C01.f -------------------------------------------------------------------------------------
     RC = prog.find1(r"^rustic_core::commands::restore::restore_contents$")
     fam = [RC] + prog.closures_of(RC)
